@@ -1600,7 +1600,7 @@ skip_cpp_comment(int c) {
  * Skips a C++14 digit separator that has just been found through peek().
  */
 int CPPPreprocessor::
-skip_digit_separator(int c) {
+skip_digit_separator(int c, bool hex) {
   if (c != '\'') {
     return c;
   }
@@ -1608,7 +1608,7 @@ skip_digit_separator(int c) {
   get();
   c = peek();
 
-  if (isdigit(c)) {
+  if (isdigit(c) || (hex && isxdigit(c))) {
     return c;
   }
 
@@ -2844,7 +2844,7 @@ get_number(int c) {
 
     while (c != EOF && (isdigit(c) || (tolower(c) >= 'a' && tolower(c) <= 'f'))) {
       num += get();
-      c = skip_digit_separator(peek());
+      c = skip_digit_separator(peek(), true);
     }
 
     loc.last_line = get_line_number();
